@@ -90,7 +90,7 @@ example :
   decide
 example : Table.init.WF := Table.init_WF
 example : HeaderOk 65535 (ofString ":authority", ofString "www.example.com") :=
-  ⟨by decide, by decide, by decide⟩
+  ⟨by decide, by decide⟩
 
 /-- Whole connection: over an arbitrarily long history of header blocks —
     served ones and ones lighttpd only decodes and discards (refused streams,
@@ -149,7 +149,8 @@ theorem c07_encoding_unambiguous (cap : Nat) (hcap : cap ≤ 65535) (t : Table) 
     list."  The statement planned in DESIGN.md (`c07_invalid_is_error`: every
     block outside the image of `encodeBlock` is an error) is FALSE of
     lshpack_dec_decode() as it is — see the witnesses `c07_deviation_*` at the
-    end (trailing-space name trim, absent value string, over-long integers).
+    end (over-long integers are accepted; a valid block holding only a size
+    update is refused).
     What holds and is proved instead: the Huffman layer is strict
     (`c07_huffman_canonical`), two lists never share an encoding
     (`c07_encoding_unambiguous`), and the three error theorems below, bundled as
@@ -215,8 +216,9 @@ theorem c07_truncated_string_is_error (cap : Nat) (huff : Nat) (len : Nat) (avai
 example : decStr 65535 [5, 0x61, 0x62] = .error .badData := by rfl
 
 /-- partial form of the planned `c07_invalid_is_error` (missing: blocks that are
-    invalid only by an over-long integer, an absent value string or a field name
-    with trailing white space are accepted by lshpack, see `c07_deviation_*`) -/
+    invalid only by an over-long integer are accepted by lshpack, see
+    `c07_deviation_overlong_int`; truncation inside a field is covered for the
+    string length and the missing value string, not for every cut point) -/
 theorem c07_invalid_is_error_partial (cap : Nat) (d : Dec) :
     (∀ idx rest, idx < 2 ^ 32 → d.tbl.lookup idx = none →
       (decodeBlock cap d (encInt 7 128 idx ++ rest)).err = some .badData) ∧
@@ -288,22 +290,54 @@ example : respFields 200
     some [(ofString ":status", ofString "200"), (ofString "set-cookie", ofString "a=1"),
           (ofString "set-cookie", ofString "b=2"), (ofString "date", autoDate)] := by decide
 
-/-! Deviations of lshpack_dec_decode() from RFC 7541 that the model keeps (the
-    correspondence check replays them against the C on every run): they are
-    leniencies on *invalid* input; see the report. -/
+/-- Invalid blocks are errors (4): a literal representation whose value string is
+    missing altogether (the block ends after the name, given by index or as a
+    literal) is BAD_DATA — for every table state, name and indexing mode. -/
+theorem c07_missing_value_is_error (cap : Nat) (hcap : cap ≤ 65535) (d : Dec) (hwf : d.tbl.WF)
+    (c : Choice) (h : Header) (hok : HeaderOk cap h)
+    (hlit : ¬ (c.mode = .indexed ∧ d.tbl.lookup c.idx = some h)) :
+    -- the encoding of the field with an empty value, cut right before the value string
+    let full := (encodeFieldCore d.tbl c (h.1, [])).1
+    (decodeBlock cap d (full.take (full.length - (encStr c.huffValue []).length))).err = some .badData :=
+  missing_value_badData cap (by omega) d hwf c h hok hlit
 
-/-- lshpack strips trailing isspace() octets from a literal field name: the
-    (invalid) name "a " arrives as "a" — and is entered into the dynamic table
-    with the shorter name, i.e. with a size the encoder did not account for. -/
-theorem c07_deviation_name_trim :
-    let r := decodeBlock 65535 Dec.init [0x40, 0x02, 0x61, 0x20, 0x01, 0x62]
-    r.err = none ∧ r.fields.map Field.header = [([0x61], [0x62])] ∧
-      tableSize r.dec.tbl.dyn = 34 := by decide
+example : (decodeBlock 65535 Dec.init [0x00, 0x01, 0x61]).err = some .badData := by decide
+example : (decodeBlock 65535 Dec.init [0x45]).err = some .badData := by decide
 
-/-- a literal whose value string is missing altogether (block ends after the
-    name) is accepted with an empty value -/
-theorem c07_deviation_missing_value :
-    let r := decodeBlock 65535 Dec.init [0x00, 0x01, 0x61]
-    r.err = none ∧ r.fields.map Field.header = [([0x61], [])] := by decide
+/-- Response direction, table size: when the peer changes
+    SETTINGS_HEADER_TABLE_SIZE (any number of times between two header blocks)
+    lighttpd resizes lshpack's encoder table at once and announces, at the start
+    of the next header block, the smallest size since the prior block and then
+    the final size (RFC 7541 4.2). A conformant decoder that applies these
+    updates ends with exactly the encoder's table: same entries, same limit. -/
+theorem c07_settings_resize_sync (t0 : Table) (hwf : t0.WF) (vs : List Nat) :
+    let g := vs.foldl EncGlue.settings ({ size := t0.curMax } : EncGlue)
+    let te := encAfter t0 vs
+    let td := g.updates.foldl Table.updateMax t0
+    td.dyn = te.dyn ∧ td.curMax = te.curMax :=
+  settings_resize_sync t0 hwf vs
+
+example : ([0, 4096].foldl EncGlue.settings ({} : EncGlue)).updates = [0, 4096] := by decide
+example : ([100].foldl EncGlue.settings ({} : EncGlue)).updates = [100] := by decide
+example : ([5000, 65536].foldl EncGlue.settings ({} : EncGlue)).updates = [] := by decide
+
+/-! Field names are octet-transparent: a name with trailing white space arrives
+    as sent (and is then refused by http_request_parse_header, 400) — instance
+    of `c07_roundtrip`; regression for the trailing-space strip ls-hpack had. -/
+example : (decodeBlock 65535 Dec.init [0x40, 0x02, 0x61, 0x20, 0x01, 0x62]).fields.map Field.header =
+    [([0x61, 0x20], [0x62])] := by decide
+
+/-! Deviations of lshpack_dec_decode() from RFC 7541 that the model keeps as they
+    are (leniency / strictness on unusual input, replayed against the C on
+    every run; see the report). -/
+
+/-- over-long (non-minimal) integer encodings are accepted: 7f 80 80 80 00 = 127 -/
+theorem c07_deviation_overlong_int : decInt 7 [0x7f, 0x80, 0x80, 0x80, 0x00] = some (127, []) := by
+  decide
+
+/-- a header block that consists of a dynamic table size update only (valid
+    HPACK for an empty header list) is answered BAD_DATA -/
+theorem c07_deviation_size_update_only_block :
+    (decodeBlock 65535 Dec.init [0x3f, 0xe1, 0x1f]).err = some .badData := by decide
 
 end LtVerif.C07
